@@ -30,6 +30,11 @@ def variants(rng, base, tier):
             for pos in sorted(set([0, nf // 2, nf])):
                 fname = form["names"][0] if form["names"] else "embedded-" + form["type"][1]
                 out.append(("excl:%s@%s[%d]" % (fname, tname, pos), G.decorate(decls, tname, pos, form), "excluded"))
+    # an unexported field of a supported type, one per first letter a..z (and a non-ASCII lower-case letter)
+    nroot = len(dict(decls)["Root"])
+    for k, ch in enumerate("abcdefghijklmnopqrstuvwxyz"):
+        ty = [("b", "int32"), ("p", ("b", "string")), ("s", ("b", "float64")), ("b", "bool")][k % 4]
+        out.append(("excl:%sfield@Root[%d]" % (ch, k % (nroot + 1)), G.decorate(decls, "Root", k % (nroot + 1), {"names": [ch + "field"], "type": ty, "tag": None}), "unexported-letter"))
     # other struct-tag keys (json, db, xml) around the parquet key of every field: nothing changes
     out.append(("tagkeys:all", G.with_other_tag_keys(decls), "other-tag-keys"))
     # two excluded fields at once
@@ -46,7 +51,7 @@ def variants(rng, base, tier):
                 if reuse is not None:      # the embedded struct is a type the file already declares and uses as a named field
                     out.append(("embed-reuse:%s[%d:%d]" % (tname, i, i + k), reuse, "embed-reuse"))
     if tier == "quick":
-        keep = [v for v in out if v[2] not in ("excluded", "embed-reuse", "other-tag-keys")]
+        keep = [v for v in out if v[2] not in ("excluded", "embed-reuse", "other-tag-keys", "unexported-letter")]
         ex = [v for v in out if v[2] == "excluded"]
         rng.shuffle(ex)
         keep = rng.sample(keep, min(len(keep), 10))
@@ -55,7 +60,7 @@ def variants(rng, base, tier):
         for v in ex:
             first.setdefault(v[0].split("@")[0], v)
         ex = list(first.values()) + [v for v in ex if v not in first.values()]
-        out = ex[:max(22, len(first))] + keep + [v for v in out if v[2] in ("embed-reuse", "other-tag-keys")]
+        out = ex[:max(22, len(first))] + keep + [v for v in out if v[2] in ("embed-reuse", "other-tag-keys", "unexported-letter")]
     return decls, out
 
 
@@ -206,7 +211,7 @@ def run(chk, st, tier):
     chk.coverage["model_vs_impl_mismatches"] = mism
     chk.coverage["input_distribution"] = dist
     chk.sample({"base": plan[0][0].name, "variant": plan[0][2][0][0], "go": G.go_source("p", plan[0][2][0][1])[:300]})
-    chk.coverage["rule"] = ("10 base structs x insertions of excluded fields (unexported, underscore, anonymous struct with exported inner fields, dash-tagged struct/func/map/chan/pointer/slice/interface, dash tag before/after json/xml keys) and other struct-tag keys around every field's parquet key at start/middle/end of every declaration, "
+    chk.coverage["rule"] = ("10 base structs x insertions of excluded fields (unexported with every first letter a..z, underscore, anonymous struct with exported inner fields, dash-tagged struct/func/map/chan/pointer/slice/interface, dash tag before/after json/xml keys) and other struct-tag keys around every field's parquet key at start/middle/end of every declaration, "
                             "and replacements of runs of fields by an embedded struct (every run at the root; whole/first field in nested groups; also by an already declared struct that an earlier or later named field uses). Per variant: column tree of the real parse.Fields = base's tree = model's tree; "
                             "parquetgen output byte-identical to the base's; for a sample the variant is compiled and run with the excluded fields filled with data: files byte-identical, excluded fields zero after reading. distinct = distinct variants.")
     chk.coverage["explanation"] = "decorate_inert / embed_inline (coq/props/C14.v) prove the column tree unchanged for every insertion/replacement in the parse model."
